@@ -2,7 +2,8 @@
 
 Every construct of CONSTRUCTS (the pure builtins of src/builtins_registry.c with int/bool/string/array<int> arguments, plus cond,
 and/or over calls, nested calls, struct literal + field access, tuple literal + index, enum value, match on a union with a
-binding, string +) is put into every context of CONTEXTS (global initialiser, statement of a function body, argument of a user
+binding, string +, and an ENUM-typed value as operand of every int operator / array index / range bound / cond test / call
+argument) is put into every context of CONTEXTS (global initialiser, statement of a function body, argument of a user
 call, operand of an operator, condition of if, condition of while, bound of a for-range, return expression, body of a loop,
 let inside a block, shadow-block assertion) as a minimal typed program.  Every program the REAL type checker accepts must not
 end in an internal failure class on either backend (tc_common.internal_failure + 'shadow-failed'), and the two backends must
